@@ -416,8 +416,20 @@ int scan_from_with(var input, int pos, const char* fmt, var args) {
       }
       
       else if (strchr("diouxX", *fmt)) {
+        /* the temporary has the width the specification stores */
         long tmp = 0;
-        int err = format_from(input, pos, fmt_buf, &tmp, &off);
+        int err = 0;
+        if (strchr(fmt_buf, 'l')) {
+          err = format_from(input, pos, fmt_buf, &tmp, &off);
+        } else if (strchr("di", *fmt)) {
+          int itmp = 0;
+          err = format_from(input, pos, fmt_buf, &itmp, &off);
+          tmp = itmp;
+        } else {
+          unsigned int utmp = 0;
+          err = format_from(input, pos, fmt_buf, &utmp, &off);
+          tmp = utmp;
+        }
         if (err < 1) { throw(FormatError, "Unable to input Int!"); }
         pos += off;
         assign(a, $I(tmp));
